@@ -1,4 +1,154 @@
-(** C31 — secure lists behave like Python lists. Only statements; proofs are in theories/SecList.v. *)
-From Coq Require Import ZArith List.
+(** C31 — secure lists behave like Python lists under any operation history.
+    Only statements; the model and the proofs are in theories/SecList.v.
+
+    Model: the opened contents of a seclist as [list Z]; methods transcribed from seclists.py at
+    value level.  [uvec a n] is the specification of runtime.unit_vector(a, n) (tied by C30). *)
+From Coq Require Import ZArith List Bool.
 Require Import MPyC.SecList.
 Import ListNotations.
+Local Open Scope nat_scope.
+
+(** ** The four kinds of secret index and when they are in range *)
+
+Theorem C31_valid_secure_number :
+  forall (a : Z) (n : nat), (0 <= a < Z.of_nat n)%Z -> valid_key (KNum a) n.
+Proof. exact valid_key_num. Qed.
+Print Assumptions C31_valid_secure_number.
+
+Theorem C31_valid_unit_vector :
+  forall a n, a < n -> valid_key (KVec (uvec (Z.of_nat a) n)) n.
+Proof. exact valid_key_vec. Qed.
+Print Assumptions C31_valid_unit_vector.
+
+(** secindex(u, offset=off) denotes position off + (position of the 1 in u) *)
+Theorem C31_valid_secindex :
+  forall off b m, b < m -> valid_key (KSec off (uvec (Z.of_nat b) m)) (off + m).
+Proof. exact valid_key_sec. Qed.
+Print Assumptions C31_valid_secindex.
+
+(** secindex.__add__: positions and offsets add; the sum's vector has length m + n - 1 *)
+Theorem C31_valid_secindex_sum :
+  forall o1 i m o2 j n, i < m -> j < n ->
+    valid_key (KAdd o1 (uvec (Z.of_nat i) m) o2 (uvec (Z.of_nat j) n)) (o1 + o2 + (m + n - 1)) /\
+    key_index (KAdd o1 (uvec (Z.of_nat i) m) o2 (uvec (Z.of_nat j) n)) = Z.of_nat (o1 + o2 + i + j).
+Proof. exact valid_key_add_index. Qed.
+Print Assumptions C31_valid_secindex_sum.
+
+(** ** Every secret-index method refines the Python list operation, for all lists and all
+       in-range secret indices of any kind *)
+
+Theorem C31_get_refines :
+  forall (xs : list Z) (k : key), valid_key k (length xs) ->
+    getitem xs k = Ok (nth (Z.to_nat (key_index k)) xs 0%Z).
+Proof. exact get_refines. Qed.
+Print Assumptions C31_get_refines.
+
+Theorem C31_set_refines :
+  forall (xs : list Z) (k : key) (v : Z), valid_key k (length xs) ->
+    setitem xs k v = Ok (upd xs (Z.to_nat (key_index k)) v).
+Proof. exact set_refines. Qed.
+Print Assumptions C31_set_refines.
+
+Theorem C31_del_refines :
+  forall (xs : list Z) (k : key), valid_key k (length xs) ->
+    delitem xs k = Ok (remove_nth xs (Z.to_nat (key_index k))).
+Proof. exact del_refines. Qed.
+Print Assumptions C31_del_refines.
+
+(** insert accepts positions 0..len (a secret index for a list one longer) *)
+Theorem C31_insert_refines :
+  forall (xs : list Z) (k : key) (v : Z), valid_key k (length xs + 1) ->
+    insert_sec xs k v = Ok (insert_at xs (Z.to_nat (key_index k)) v).
+Proof. exact insert_refines. Qed.
+Print Assumptions C31_insert_refines.
+
+Theorem C31_pop_refines :
+  forall (xs : list Z) (k : key), valid_key k (length xs) ->
+    pop_sec xs k = Ok (nth (Z.to_nat (key_index k)) xs 0%Z, remove_nth xs (Z.to_nat (key_index k))).
+Proof. exact pop_refines. Qed.
+Print Assumptions C31_pop_refines.
+
+(** the form with a plain position a: secure number a, or the a-th unit vector *)
+Theorem C31_get_number_and_unit_vector :
+  forall (xs : list Z) (a : nat), a < length xs ->
+    getitem xs (KNum (Z.of_nat a)) = Ok (nth a xs 0%Z) /\
+    getitem xs (KVec (uvec (Z.of_nat a) (length xs))) = Ok (nth a xs 0%Z).
+Proof. exact get_number_and_unit_vector. Qed.
+Print Assumptions C31_get_number_and_unit_vector.
+
+(** ** Searching *)
+
+Theorem C31_count_refines : forall xs v, count xs v = py_count xs v.
+Proof. exact count_refines. Qed.
+Print Assumptions C31_count_refines.
+
+Theorem C31_contains_refines : forall xs v, contains xs v = b2z (py_inb xs v).
+Proof. exact contains_refines. Qed.
+Print Assumptions C31_contains_refines.
+
+(** the divide-and-conquer closure of runtime.find returns the FIRST occurrence, -1 if absent *)
+Theorem C31_find_refines : forall xs v, find xs v = py_find xs v.
+Proof. exact find_refines. Qed.
+Print Assumptions C31_find_refines.
+
+Theorem C31_index_refines :
+  forall xs v, index xs v = if py_inb xs v then Ok (py_find xs v) else Err EValue.
+Proof. exact index_refines. Qed.
+Print Assumptions C31_index_refines.
+
+Theorem C31_remove_refines :
+  forall xs v, remove xs v = match py_remove xs v with Some xs' => Ok xs' | None => Err EValue end.
+Proof. exact remove_refines. Qed.
+Print Assumptions C31_remove_refines.
+
+(** ** Comparisons: _less_than/_norm is Python's lexicographic list <, for ALL pairs of lists
+       (equal lengths, proper prefixes either way, empties) *)
+
+Theorem C31_lexicographic_lt_correct : forall x y, less_than x y = b2z (py_lt x y).
+Proof. exact lexicographic_lt_correct. Qed.
+Print Assumptions C31_lexicographic_lt_correct.
+
+Theorem C31_compare_correct : forall c x y, compare_op c x y = b2z (py_compare c x y).
+Proof. exact compare_correct. Qed.
+Print Assumptions C31_compare_correct.
+
+(** ** Histories: the model and the abstract Python-list interpreter agree step by step (state
+       and output after every operation), for every operation sequence with in-range secret indices *)
+
+Theorem C31_step_refines : forall xs o, valid_op xs o -> step xs o = pystep xs o.
+Proof. exact step_refines. Qed.
+Print Assumptions C31_step_refines.
+
+Theorem C31_history_refines :
+  forall ops xs, valid_hist xs ops -> run step xs ops = run pystep xs ops.
+Proof. exact history_refines. Qed.
+Print Assumptions C31_history_refines.
+
+Theorem C31_history_refines_fold :
+  forall ops xs, valid_hist xs ops -> run_fold step xs ops = run_fold pystep xs ops.
+Proof. exact history_refines_fold. Qed.
+Print Assumptions C31_history_refines_fold.
+
+(** ** Non-vacuity: concrete instances meeting the hypotheses *)
+
+Example C31_nonvacuous_keys :
+  valid_keyb (KNum 2) 4 = true /\
+  valid_keyb (KVec [0; 0; 1; 0]%Z) 4 = true /\
+  valid_keyb (KSec 1 [0; 1; 0]%Z) 4 = true /\
+  valid_keyb (KAdd 1 [0; 1]%Z 0 [1; 0]%Z) 4 = true /\
+  valid_keyb (KNum 4) 4 = false /\ valid_keyb (KVec [0; 1; 1; 0]%Z) 4 = false.
+Proof. vm_compute. repeat split. Qed.
+
+Example C31_nonvacuous_history :
+  let xs := [5; 3; 7; 3; 9]%Z in
+  let ops := [Get (KNum 2); SetK (KVec [0; 1; 0; 0; 0]%Z) 42%Z; Del (KSec 1 [1; 0; 0; 0]%Z);
+              Insert (KNum 4) 11%Z; Pop (KAdd 1 [0; 1]%Z 0 [1; 0; 0]%Z); Remove 3%Z; Find 9%Z;
+              Cmp CLt false [5; 7; 10]%Z; Cmp CLe true [5]%Z] in
+  valid_hist xs ops /\
+  run step xs ops =
+    [([5; 3; 7; 3; 9], OZ 7); ([5; 42; 7; 3; 9], ONone); ([5; 7; 3; 9], ONone);
+     ([5; 7; 3; 9; 11], ONone); ([5; 7; 9; 11], OZ 3); ([5; 7; 9; 11], OErr EValue);
+     ([5; 7; 9; 11], OZ 2); ([5; 7; 9; 11], OZ 1); ([5; 7; 9; 11], OZ 1)]%Z.
+Proof.
+  cbv zeta. split; [apply valid_histb_sound|]; vm_compute; reflexivity.
+Qed.
